@@ -3,6 +3,7 @@
 export PATH=/opt/veriftools/go1.26.8/bin:$PATH GOTOOLCHAIN=local GOFLAGS=-mod=mod GOPROXY=off GOSUMDB=off
 D="$(cd "$(dirname "$0")" && pwd)"
 export VERIF_ROOT="$D"
+export VERIF_PREFER_MIRROR=1
 if [ ! -x $D/bin/govc ] || [ -n "$(find $D/govc -newer $D/bin/govc -name '*.go' 2>/dev/null | head -1)" ]; then
   (cd $D/govc && go build -o ../bin/govc .) || exit 2
 fi
